@@ -180,7 +180,7 @@ pub fn def() -> PropDef {
         assumptions: &[],
         spaces: vec![
             Space { name: "small", decode: decode_small, plan: |t| match t { Tier::Quick => Plan::Enumerate(enumerate_pairs(4, 4), true, "all ordered pairs of sequences of length <= 4 over 4 symbols"), Tier::Thorough => Plan::Enumerate(enumerate_pairs(5, 4), true, "all ordered pairs of sequences of length <= 5 over 4 symbols") } },
-            Space { name: "random", decode: decode_random, plan: |t| Plan::Random(t.n(100_000, 3_000_000)) },
+            Space { name: "random", decode: decode_random, plan: |t| Plan::Random(t.n(300_000, 6_000_000)) },
         ],
         differential: false,
     }
